@@ -341,6 +341,10 @@ class PageRenderer:
                         last_val = last_values.get(col_name)
 
                         if val is None:
+                            # The level switched to a divider: it gets no heading,
+                            # but the levels below it start a new group.
+                            if col_name in last_values:
+                                force_render = True
                             continue
 
                         # Check for change
